@@ -134,16 +134,25 @@ def rand_gen(rnd, tier, i):
     }
 
 
+def large_gen(rnd, tier, i):
+    """a run long enough for the pickle to span several 64 KiB frames (readers then consume the stream piecewise)"""
+    return {"seed": rnd.randrange(1 << 30), "n": rnd.randint(5, 6), "S": 1, "G": 4, "chains": 3,
+            "iters": rnd.randint(240, 300) if (tier == "thorough" and i > 0) else rnd.randint(135, 150),
+            "burnin": 1, "particles": 2, "proposal": "semi-adapted", "op": "0", "subtree": 0.0, "thin": 1, "conc": True,
+            "clusters": False, "large": True}
+
+
 def cases(tier, rnd):
     out = []
-    n_files = 10 if tier == "quick" else 40
+    n_files = 8 if tier == "quick" else 40
+    n_large = 1 if tier == "quick" else 3
     made, attempts = 0, 0
     null = open(os.devnull, "w")
     old = sys.stdout
     sys.stdout = null
     try:
         while made < n_files and attempts < 3 * n_files:
-            g = rand_gen(rnd, tier, attempts)
+            g = large_gen(rnd, tier, attempts) if attempts < n_large else rand_gen(rnd, tier, attempts)
             attempts += 1
             try:
                 data, written = make_file(g)
@@ -154,17 +163,20 @@ def cases(tier, rnd):
             b64 = base64.b64encode(data).decode()
             fid = hashlib.sha1(data).hexdigest()[:12]
             L = len(data)
-            for lo in range(0, L + 1, PART):
+            part = max(PART, -(-(L + 1) // 28))
+            readers = ["map", "topo", "cons"] if (g.get("large") and tier == "quick") else READERS
+            for lo in range(0, L + 1, part):
                 out.append({"kind": "prefix", "fid": fid, "gen": g, "written": written, "file_b64": b64,
-                            "lo": lo, "hi": min(L + 1, lo + PART), "blk": rnd.randint(1, 16)})
+                            "lo": lo, "hi": min(L + 1, lo + part), "blk": rnd.randint(1, 16), "readers": readers})
             # crash points: positions modulo the rewritten file's length, plus (added by the worker) its last 12 bytes
-            out.append({"kind": "crash", "fid": fid, "gen": g, "file_b64": b64, "tail": 12,
-                        "points": [rnd.randrange(1 << 20) for _ in range(6 if tier == "quick" else 16)]})
+            if not (g.get("large") and tier == "quick"):
+                out.append({"kind": "crash", "fid": fid, "gen": g, "file_b64": b64, "tail": 10,
+                            "points": [rnd.randrange(1 << 20) for _ in range(4 if tier == "quick" else 16)]})
     finally:
         sys.stdout = old
         null.close()
-    for i in range(1 if tier == "quick" else 3):
-        out.append({"kind": "run_end", "seed": rnd.randrange(1 << 30), "chains": 1, "n": rnd.randint(2, 3)})
+    for i in range(2 if tier == "quick" else 6):
+        out.append({"kind": "run_end", "seed": rnd.randrange(1 << 30), "chains": 1 + i % 2 * (1 + i // 2 % 2), "n": rnd.randint(2, 3)})
     out.append({"kind": "malformed"})
     return out
 
@@ -279,12 +291,13 @@ def payload_available(b, H, n):
         return -1
 
 
-def trace_value(results):
-    """the loaded result as nested lists of naturals (input of the model's serialiser)"""
+def trace_value(results, cap=6):
+    """the loaded result as nested lists of naturals (input of the model's serialiser); at most `cap`
+    entries per chain so that the model's table (one row per prefix length of its file) stays small"""
     out = []
     for c, r in sorted(results.items()):
         ents = []
-        for e in r["trace"]:
+        for e in r["trace"][:cap]:
             nd = e["tree"]["node_data"]
             ents.append([int(e["iter"]), [[int(k) + 1, sorted(int(x.idx) for x in v)] for k, v in sorted(nd.items(), key=lambda kv: int(kv[0]))]])
         out.append([int(c), ents])
@@ -335,20 +348,20 @@ def check_malformed(ctx, case):
     ctx.done(case, nontrivial=False, sample={"kind": "malformed"})
 
 
-def full_reference(ctx, case, data, d):
+def full_reference(ctx, case, data, d, readers=READERS):
     """outputs of every reader on the complete file; own load of the file; sanity of 'complete'."""
     path = os.path.join(d, "full.pkl.gz")
     open(path, "wb").write(data)
-    full = {r: run_reader(r, path, d) for r in READERS}
+    full = {r: run_reader(r, path, d) for r in readers}
     own = pickle.loads(gzip.decompress(data))
     own_sum = summary(own)
-    ok_readers = [r for r in READERS if full[r][0] == "ok"]
-    for r in READERS:
+    ok_readers = [r for r in readers if full[r][0] == "ok"]
+    for r in readers:
         if full[r][0] != "ok":
             ctx.stat(f"full_file_error_{r}_{full[r][1]}")
     if not ok_readers:
         ctx.corr_fail({k: v for k, v in case.items() if k != "file_b64"}, "no reader succeeds on the complete file: enumeration vacuous",
-                      {r: full[r][1] for r in READERS})
+                      {r: full[r][1] for r in readers})
     # what was written = what the run contained
     written = case.get("written")
     if written is not None and own_sum != "unreadable-structure":
@@ -363,7 +376,7 @@ def full_reference(ctx, case, data, d):
                 ctx.oracle_fail(case, f"{r}: the object loaded from the complete file differs from the file's content",
                                 "process_trace." + r, "full-load-differs")
     # topology report counts every entry of every chain once
-    if full["topo"][0] == "ok" and own_sum != "unreadable-structure":
+    if "topo" in full and full["topo"][0] == "ok" and own_sum != "unreadable-structure":
         try:
             rows = list(csv.DictReader(io.StringIO(full["topo"][1][0].decode()), delimiter="\t"))
             total = sum(int(r["count"]) for r in rows)
@@ -407,21 +420,30 @@ def check_prefix(ctx, case, use_model=True):
     d = tempfile.mkdtemp(prefix="c20")
     nfail = [0]
     try:
-        full, own, own_sum = full_reference(ctx, case, data, d)
+        readers = [r for r in case.get("readers", READERS) if r in READERS] or READERS
+        full, own, own_sum = full_reference(ctx, case, data, d, readers)
         cut = os.path.join(d, "trace.pkl.gz")
         H = header_len(data)
         payload = gzip.decompress(data)
         P = len(payload)
         model = None
         if use_model:
-            val = trace_value(own)
-            model = ctx.ask({"op": "frame", "val": val, "blk": case.get("blk", 4)})
-            check_model_table(ctx, case, model, val)
-        if lo == 0:
+            try:
+                val = trace_value(own)
+            except Exception as e:
+                val = None
+                ctx.corr_fail({k: v for k, v in case.items() if k != "file_b64"},
+                              "the complete file is not one pickled {chain: {trace: [...]}} object: the framing model no longer mirrors the writer",
+                              f"{type(e).__name__}: {e}"[:200])
+            if val is not None:
+                model = ctx.ask({"op": "frame", "val": val, "blk": case.get("blk", 4)})
+                check_model_table(ctx, case, model, val)
+        if lo == 0 and "gen" in case:
             g = case.get("gen", {})
             ctx.stat("files")
             ctx.stat(f"file_chains_{len(case.get('written') or [])}")
             ctx.stat(f"file_bytes_{'<1k' if L < 1024 else '<2k' if L < 2048 else '<4k' if L < 4096 else '>=4k'}")
+            ctx.stat(f"file_pickle_frames_{1 + (P - 1) // 65536 if P > 65536 else 1}")
             ctx.stat("file_with_clusters" if g.get("clusters") else "file_without_clusters")
             ctx.stat("file_outliers_" + ("on" if g.get("op", "0") != "0" else "off"))
         prev = None  # classes at n - 1
@@ -431,7 +453,7 @@ def check_prefix(ctx, case, use_model=True):
             extra = n >= hi
             open(cut, "wb").write(data[:n])
             classes = {}
-            for r in READERS:
+            for r in readers:
                 res = run_reader(r, cut, d)
                 if extra:
                     classes[r] = "ok" if res[0] == "ok" else "err"
@@ -447,14 +469,14 @@ def check_prefix(ctx, case, use_model=True):
             if extra:
                 break
             nok = sum(1 for c in classes.values() if c == "ok")
-            ctx.stat("prefix_all_error" if nok == 0 else ("prefix_all_complete" if nok == len(READERS) else "prefix_mixed"))
-            if 0 < n < L and nok == len(READERS):
+            ctx.stat("prefix_all_error" if nok == 0 else ("prefix_all_complete" if nok == len(readers) else "prefix_mixed"))
+            if 0 < n < L and nok == len(readers):
                 ctx.stat(f"complete_with_missing_bytes_{L - n}")
             if model is not None and H is not None and ncorr[0] < MAXFAIL:
-                correspond(ctx, case, model, n, L, H, P, payload_available(data, H, n), classes, full, ncorr)
+                correspond(ctx, case, model, n, L, H, P, payload_available(data, H, n), classes, full, ncorr, readers)
             ctx.done({"fid": case.get("fid"), "n": n}, nontrivial=(H is not None and n > H),
                      sample={"file": case.get("fid"), "length": L, "prefix": n, "chains": case.get("written"),
-                             "outcome": {r: classes[r] for r in READERS}})
+                             "outcome": {r: classes[r] for r in readers}})
     finally:
         shutil.rmtree(d, ignore_errors=True)
 
@@ -493,13 +515,13 @@ def model_prefix_for(m, n, L, H, P, p):
     return best
 
 
-def correspond(ctx, case, m, n, L, H, P, p, classes, full, ncorr):
+def correspond(ctx, case, m, n, L, H, P, p, classes, full, ncorr, readers=READERS):
     small = {k: v for k, v in case.items() if k != "file_b64"}
     small.update({"lo": n, "hi": n + 1})
     i = model_prefix_for(m, n, L, H, P, p)
     mc = m["cls"][i]
     ctx.stat(f"model_class_{mc}")
-    for r in READERS:
+    for r in readers:
         if full[r][0] != "ok":
             continue
         real = 1 if classes[r] == "ok" else 0
@@ -606,7 +628,14 @@ def same_modulo_mtime(a, ref):
 
 def check_crash(ctx, case):
     data, _ = file_of(case)
-    results = pickle.loads(gzip.decompress(data))
+    try:
+        results = pickle.loads(gzip.decompress(data))
+        summary_ok = summary(results) != "unreadable-structure"
+    except Exception:
+        summary_ok = False
+    if not summary_ok:  # the file is no longer one pickled result object: take the run's results themselves
+        ctx.stat("crash_results_regenerated")
+        results = gen_results(case["gen"])
     d = tempfile.mkdtemp(prefix="c20cr")
     nfail = [0]
     small = {k: v for k, v in case.items() if k != "file_b64"}
@@ -633,8 +662,9 @@ def check_crash(ctx, case):
         os.makedirs(os.path.dirname(path))
         ctx.stat("rewrite_same_length_as_original" if L == len(data) else "rewrite_other_length")
         points = sorted(set([x % (L + 1) for x in case["points"]] + list(range(max(0, L - case.get("tail", 0)), L + 1))))
-        for N in points:
-            for mode in ("enospc", "efbig", "kill"):
+        for idx, N in enumerate(points):
+            # a failing file object at every point; the two OS-level faults alternate (all three in the thorough tier)
+            for mode in (("enospc", "efbig", "kill") if ctx.tier == "thorough" else ("enospc", ("efbig", "kill")[idx % 2])):
                 if os.path.exists(path):
                     os.remove(path)
                 raised = None
@@ -703,21 +733,47 @@ def check_run_end(ctx, case):
             events.append(("chain_done", os.path.exists(out)))
             return r
 
+        class InProcessPool:
+            """stands in for the spawned worker pool: chains run in this process, in submission order"""
+
+            def __init__(self, *a, **k):
+                pass
+
+            def __enter__(self):
+                return self
+
+            def __exit__(self, *a):
+                return False
+
+            def submit(self, fn, *a, **k):
+                from concurrent.futures import Future
+                f = Future()
+                try:
+                    f.set_result(chain(*a, **k) if fn is real_chain or fn is chain else fn(*a, **k))
+                except Exception as e:
+                    f.set_exception(e)
+                return f
+
+        real_pool = getattr(prun, "ProcessPoolExecutor", None)
         prun.run_phyclone_chain = chain
+        if real_pool is not None:
+            prun.ProcessPoolExecutor = InProcessPool
         try:
             with patched_open(out, 1 << 60, log):
-                prun.run(inp, out, burnin=1, num_iters=2, num_particles=3, grid_size=5, seed=case["seed"] % 1000, num_chains=1,
-                         print_freq=1000, density="binomial")
+                prun.run(inp, out, burnin=1, num_iters=2, num_particles=3, grid_size=5, seed=case["seed"] % 1000,
+                         num_chains=case["chains"], print_freq=1000, density="binomial")
         finally:
             prun.run_phyclone_chain = real_chain
+            if real_pool is not None:
+                prun.ProcessPoolExecutor = real_pool
+        if len(events) != case["chains"]:
+            ctx.stat("run_chain_not_intercepted")
         opens = [e for e in log if e[0] == "open"]
         moved = [e for e in log if e[0] in ("seek", "truncate")]
         if any(ex for _, ex in events):
             ctx.oracle_fail(case, "the trace file exists before the last chain has finished", "run.run", "early-file")
         if len(opens) > 1 or moved:
             ctx.oracle_fail(case, "run re-opens, seeks or truncates the trace file", "run.run", "not-append-only", {"opens": opens, "moves": moved[:5]})
-        if not events:
-            ctx.stat("run_chain_not_intercepted")
         if not opens:
             ctx.stat("writer_not_intercepted")
         data = open(out, "rb").read() if os.path.exists(out) else None
